@@ -738,6 +738,9 @@ def install_iters(eng):
               "<core::iter::Enumerate<I> as core::iter::Iterator>::next", "<core::iter::Take<I> as core::iter::Iterator>::next"):
         M[p] = m_iter_next
     M["core::iter::Iterator::filter"] = m_iter_filter
+    M["core::iter::Iterator::map"] = m_iter_map
+    M["<core::iter::Map<I, F> as core::iter::Iterator>::next"] = m_iter_next
+    M["core::iter::Iterator::sum"] = m_iter_sum
     M["core::str::<impl str>::split"] = m_str_split_char
     M["<core::str::Split<'a, P> as core::iter::Iterator>::next"] = m_iter_next
     M["core::iter::Iterator::for_each"] = m_iter_for_each
@@ -877,6 +880,22 @@ def _advance(eng, st, it, item_tid):
                         out.append((s3, IterV("filter", a=ni, b=it.b), item))
                     for s3 in fs:
                         work.append((s3, ni, k + 1))
+        return out
+    if it.ikind == "map":
+        out = []
+        for s1, ni, item in _advance(eng, st, it.a, None) if isinstance(it.a, IterV) else []:
+            if item is ENDED or item is None:
+                out.append((s1, IterV("map", a=ni, b=it.b), item))
+                continue
+            returned, ended = _pred_call(eng, s1, it.b, item)
+            if returned is None:
+                s1.end = "limit"
+                eng.event(s1, "unmodelled", "map closure without a body")
+                out.append((s1, it, ENDED))
+                continue
+            out.extend((s2, it, ENDED) for s2 in ended)
+            for s2, v in returned:
+                out.append((s2, IterV("map", a=ni, b=it.b), v))
         return out
     if it.ikind == "vals":
         if it.n < len(it.a):
@@ -1040,6 +1059,54 @@ def m_str_split_char(eng, st, c, args, dest_tid, t):
         return NotImplemented
     pieces = sv.s.split(chr(pat.lin.k))
     return [(st, IterV("vals", a=[Ref(val=Str(p_)) for p_ in pieces], n=0))]
+
+
+def m_iter_map(eng, st, c, args, dest_tid, t):
+    """iter.map(f) over a constant-length iterator: an adaptor value; f must be a closure (or fn item) with a MIR body"""
+    if eng.closure_fn(args[1]) is None and not isinstance(args[1], FnV):
+        return NotImplemented
+    if not isinstance(args[0], IterV):
+        return NotImplemented
+    return [(st, IterV("map", a=args[0], b=args[1]))]
+
+
+def m_iter_sum(eng, st, c, args, dest_tid, t):
+    """iter.sum::<iN>() over a constant-length iterator of integers: the items added in order, each addition with the build's
+    overflow semantics (`Sum for iN` inherits the caller's overflow checks)"""
+    it = args[0]
+    if not isinstance(it, IterV) or eng.types[dest_tid]["k"] != "int":
+        return NotImplemented
+    lo, hi = eng.int_range(dest_tid)
+    out = []
+    work = [(st, it, Int(Lin.const(0), dest_tid), 0)]
+    while work:
+        s0, it0, acc, k = work.pop()
+        if k > 4096:
+            return NotImplemented
+        pl = _pull(eng, s0, it0, None)
+        if pl is None:
+            return NotImplemented
+        out.extend((s2, DIVERGE) for s2 in pl[1])
+        for s1, nit, item in pl[0]:
+            if item is None:
+                out.append((s1, acc))
+                continue
+            if isinstance(item, Ref):
+                item = eng.deref(s1, item)
+            if not isinstance(item, Int):
+                return NotImplemented
+            tot = acc.lin + item.lin
+            for s2 in eng.assume(s1.clone(), c_and(c_lin("ge", tot - lo), c_lin("le", tot - hi))):
+                work.append((s2, nit, Int(tot, dest_tid), k + 1))
+            for cond in (c_lin("lt", tot - lo), c_lin("gt", tot - hi)):
+                for s2 in eng.assume(s1.clone(), cond):
+                    if eng.overflow_panics:
+                        s2.end = "panic"
+                        eng.event(s2, "panic", "Overflow(Add) in %s" % (c.get("inst") or "sum"), callee="sum")
+                        out.append((s2, DIVERGE))
+                    else:
+                        return NotImplemented
+    return out
 
 
 def m_iter_filter(eng, st, c, args, dest_tid, t):
